@@ -846,6 +846,7 @@ fn run_w(state_toks: &[&str], word_text: &str) -> (String, String) {
                             || Phrase::Full(fs.clone()) != phrase
                             || (fs.len() == 1 && Phrase::Field(fs[0].clone()) != phrase)
                             || phrase.field_count() != fs.len()
+                            || phrase.clone() != phrase
                         {
                             d.parse = Some("phrase-api".into());
                         }
